@@ -36,7 +36,7 @@ def universe(draw):
     return u
 
 
-def universe_items(u, spelled=True):
+def universe_items(u, spelled=True, with_wrap=True):
     """(diplomat source of type definitions, plain-rust source) ; also bounds per type as list of (longer_idx, shorter_idx)"""
     st2_has = u["st2_bound"] != "none"
     d = []
@@ -50,7 +50,8 @@ def universe_items(u, spelled=True):
     outer_decl = "'m, 'n: 'm" if (st2_has and spelled) else "'m, 'n"
     d.append("    pub struct Outer<%s> {\n        pub s: St2<'m, 'n>,\n        pub t: St1<'n>,\n    }" % outer_decl)
     # an optional nested borrowing struct
-    d.append("    pub struct Wrap<'w> {\n        pub i: DiplomatOption<St1<'w>>,\n        pub k: u8,\n    }")
+    if with_wrap:       # (left out of the file kotlin reads: it has no Option support and would reject the whole bridge)
+        d.append("    pub struct Wrap<'w> {\n        pub i: DiplomatOption<St1<'w>>,\n        pub k: u8,\n    }")
     return "\n".join(d)
 
 
@@ -410,11 +411,11 @@ def nontrivial(sig):
 
 
 # ---- level 1 --------------------------------------------------------------------------------------
-def bridge_source(u, sigs, spelled=True):
+def bridge_source(u, sigs, spelled=True, with_wrap=True):
     by_ty = {}
     for i, s in enumerate(sigs):
         by_ty.setdefault((s["self_ty"],) + impl_header(s), []).append((i, s))
-    src = "#[diplomat::bridge]\npub mod ffi {\n" + universe_items(u, spelled) + "\n"
+    src = "#[diplomat::bridge]\npub mod ffi {\n" + universe_items(u, spelled, with_wrap) + "\n"
     for (ty, ih, ia), lst in by_ty.items():
         src += "    impl%s %s%s {\n" % (ih, ty, ia)
         for i, s in lst:
@@ -839,10 +840,10 @@ def backend_body(art, work, acc, case):
 
         # kotlin and nanobind accept a smaller grammar (no Option<struct>, no optional slices): they get their own file
         # (a struct in the Err arm needs kotlin's `error` attribute: a recorded C15 finding when it is missing)
-        ksigs = [s for s in sigs if not any(t[0] in ("optstruct", "optslice") for _, t in s["params"]) and s["ret"][0] != "opt" and not (s["ret"][0] == "result" and s["ret"][2])]
+        ksigs = [s for s in sigs if not any(t[0] in ("optstruct", "optslice") or (t[0] == "struct" and t[1] == "Wrap") for _, t in s["params"]) and s["ret"][0] != "opt" and not (s["ret"][0] == "result" and s["ret"][2])]
         if ksigs:
             entry = os.path.join(work, "libk.rs")
-            open(entry, "w").write(bridge_source(u, ksigs))
+            open(entry, "w").write(bridge_source(u, ksigs, with_wrap=False))
             for b in ("kotlin", "nanobind"):
                 r = tool.run_backend(art, b, entry, os.path.join(work, "out-" + b))
                 if not r.ok:
